@@ -202,24 +202,29 @@ def build_text(case):
                 lines.append("N%d = %s(%s)" % (i, "IterOp" if (case["order"] + i) % 5 == 0 else "Op", ", ".join(args)))
         libs = ("vprobe",)
     else:
-        lines.append('Leaf = EEMSRead(InFileName = "in.csv", InFieldName = "X0")')
+        if case["order"] % 9 == 4:
+            lines.append('Leaf = EEMSRead(InFileName = "in.nc", InFieldName = "X0", DataType = "Fuzzy")')      # the NetCDF reader, its variable read as fuzzy
+        else:
+            lines.append('Leaf = EEMSRead(InFileName = "in.csv", InFieldName = "X0")')
         for i in range(n):
             outs = ["N%d" % j for (a, j) in edges if a == i]
             if dupe and outs:
                 outs = outs + [outs[0]]
             if not outs:
-                lines.append("N%d = Copy(InFieldName = Leaf)" % i)
+                lines.append("N%d = Copy(InFieldName = Leaf)" % i if case["order"] % 9 != 4 else "N%d = Sum(InFieldNames = [Leaf, Leaf])" % i)
             elif case["order"] % 5 == 3:
                 # report commands referring to one another
                 lines.append("N%d = PrintVars(InFieldNames = [%s], OutFileName = \"pv%d.txt\")" % (i, ", ".join(outs), i))
+            elif case["order"] % 9 == 4:
+                lines.append("N%d = Sum(InFieldNames = [Leaf, %s])" % (i, ", ".join(outs)))        # every member also adds the field read as fuzzy
             elif len(outs) == 1 and real in ("direct", "mixed"):
                 lines.append("N%d = Copy(InFieldName = %s)" % (i, outs[0]))
             elif len(outs) == 2 and real in ("direct", "mixed"):
                 lines.append("N%d = AMinusB(A = %s, B = %s)" % (i, outs[0], outs[1]))
             else:
                 lines.append("N%d = %s(InFieldNames = [%s])" % (i, rng.choice(["Sum", "Maximum", "Mean"]), ", ".join(outs)))
-        libs = arr.CSV_LIBS
-    if case["lib"] == "eems" and case["order"] % 4 == 1 and case["order"] % 5 != 1:
+        libs = arr.NC_LIBS if case["order"] % 9 == 4 else arr.CSV_LIBS
+    if case["lib"] == "eems" and case["order"] % 9 != 4 and case["order"] % 4 == 1 and case["order"] % 5 != 1:
         # a writer in a separate, acyclic part of the model whose output folder does not exist yet
         lines.append('OutFar = EEMSWrite(OutFileName = "results/not_there_yet/out.csv", OutFieldNames = [Leaf])')
     if case["lib"] == "eems" and case["order"] % 5 == 1:
@@ -257,6 +262,14 @@ def run_case(ctx, case):
     if case["lib"] == "eems":
         with open(d + "/in.csv", "w") as f:
             f.write("X0\n1\n2\n3\n")
+        if "in.nc" in text:
+            from netCDF4 import Dataset
+            with Dataset(d + "/in.nc", "w") as ds:
+                ds.createDimension("x", 3)
+                xv = ds.createVariable("x", "f8", ("x",))
+                xv[:] = [0.0, 1.0, 2.0]
+                v = ds.createVariable("X0", "f8", ("x",))
+                v[:] = [0.5, -0.25, 1.0]
     st = structure(case["n"], [tuple(e) for e in case["edges"]])
     ctx.count("cyclic_programs_run")
     late = None
@@ -306,7 +319,8 @@ def run_case(ctx, case):
             src = prog
             prog = Program(libraries=libs, working_dir=d)
             for name, cmd in src.commands.items():
-                prog.add_command(type(cmd), name, {a.name: _plain(a.value) for a in cmd.arguments})
+                # (list values given as tuples in every other program: any sequence will do)
+                prog.add_command(type(cmd), name, {a.name: (tuple(_plain(a.value)) if isinstance(_plain(a.value), list) and case["order"] % 2 and a.name != "Metadata" else _plain(a.value)) for a in cmd.arguments})
     except Exception as e:
         # the text is well-formed (every generated layout loads on a tree where the property holds): a cyclic model is turned down
         # when it is run, with the recursive-model error - not while it is loaded, with something else
@@ -365,7 +379,7 @@ def run_case(ctx, case):
         ctx.fail("returned-normally:%s%s%s" % ("nothing-ran" if not executed else "partly-ran", ":cycle-closed-after-a-failed-run" if late else "", ":" + pre if pre else ""), {"late_command": late, "text": text, "executed": executed, "unfinished": unfinished, "structure": skey, "via": rkey})
         return
     name = type(err).__name__
-    if name == "RecursiveModelStructure" and case["lib"] == "eems" and not case.get("api") and not late and case["order"] % 4 == 0 and "PrintVars(" not in text and "NewFieldName" not in text and "True" not in text:
+    if name == "RecursiveModelStructure" and case["lib"] == "eems" and not case.get("api") and not late and case["order"] % 4 == 0 and "PrintVars(" not in text and "NewFieldName" not in text and "True" not in text and "in.nc" not in text:
         # the same file, with a writer at its end, through the command-line tool: the recursive-model report, not a crash
         from click.testing import CliRunner
         from mpilot.cli.mpilot import main
